@@ -1,5 +1,5 @@
-\* exhaustive: linked dimensions + unset start, copies and scopes (quick + thorough)
-CONSTANTS N = 8  Par = {"p", "q"}  NVal = 2  NGrid = 2  MaxDepth = 2  MaxLevel = 5
+\* exhaustive: linked dimensions + unset start, copies and scopes (quick)
+CONSTANTS N = 8  Par = {"p", "q"}  NVal = 2  NGrid = 2  MaxDepth = 2  MaxLevel = 4
           GridSlot = "stack"  PickleSerial = "fresh"  DbSerial = "max"
 CONSTANTS Keeps <- KeepsLink  Acts <- ActsLink  Parent0 <- ParentF  Cls0 <- ClsF
           ParOf <- McParOf  GridCls <- McGridCls  MatCls <- McMatCls
